@@ -100,6 +100,7 @@ std::string run_exec(const Cmd& c){
     std::vector<std::array<double, D>> pos(N);
     for(long i = 0 ; i < N ; ++i) for(long k = 0 ; k < D ; ++k) pos[i][k] = double(c.L(a++)) / scale;
     Tree tree(conf, pos, B, mode != 0);
+    if(c.tok[0] == "execrb") tree.rebuild();     // same run on a rebuilt tree (nothing moved)
     tag_cells(tree);
     TraceSink sink; trace_sink() = &sink;
     std::string out = dump(tree);
@@ -202,7 +203,7 @@ int main(int argc, char** argv){
             }
             return "?dim";
         }
-        if(c.tok[0] != "exec") return "?unknown";
+        if(c.tok[0] != "exec" && c.tok[0] != "execrb") return "?unknown";
         switch(d*2 + (per?1:0)){
         case 2: return run_exec<1,false>(c);
         case 3: return run_exec<1,true>(c);
